@@ -11,6 +11,14 @@ base = json.load(open('/root/.vp/BASELINE.json'))
 out = '/dev/shm/pmv-baseline-%d.junit.xml' % os.getpid()
 cmd = base['cmd'].replace('<file>', out)
 env = dict(os.environ)
+repo = '/repo'
+if len(sys.argv) > 2 and sys.argv[1] == '--repo':
+    # a scratch copy / worktree: its src must shadow the editable install of /repo
+    repo = os.path.realpath(sys.argv[2])
+    cmd = cmd.replace('cd /repo', 'cd ' + repo)
+    env['PYTHONPATH'] = os.path.join(repo, 'src')
+if len(sys.argv) > 3 and sys.argv[3] == '--xdist':
+    cmd += ' -n 6'
 for k in ('DFLOOK_PYTHON_MINIFIER_VERIF', 'VERIF_REPO'):
     env.pop(k, None)
 rc = subprocess.call(cmd, shell=True, env=env, stdout=subprocess.DEVNULL, stderr=subprocess.DEVNULL)
@@ -18,7 +26,7 @@ passed = set()
 for tc in ET.parse(out).getroot().iter('testcase'):
     bad = any(ch.tag in ('failure', 'error', 'skipped') for ch in tc)
     if not bad:
-        passed.add('%s::%s' % (tc.get('classname'), tc.get('name')))
+        passed.add(('%s::%s' % (tc.get('classname'), tc.get('name'))).replace(repo + '/', '/repo/'))
 os.unlink(out)
 want = set(base['stable_pass'])
 missing = sorted(want - passed)
